@@ -369,6 +369,11 @@ func load(cmdline, environ, envprefix []string, props *properties.Properties) (c
 		return nil, fmt.Errorf("registry.consul.allowStale and registry.consul.requireConsistent cannot both be true")
 	}
 
+	// the glob cache is a ring of this size; an empty ring cannot hold a pattern
+	if cfg.GlobCacheSize <= 0 {
+		return nil, fmt.Errorf("glob.cache.size must be greater than 0")
+	}
+
 	// handle deprecations
 	deprecate := func(name, msg string) {
 		if f.IsSet(name) {
